@@ -909,6 +909,11 @@ class Interp:
         itv = self.expr(it, env, mod)
         if isinstance(itv, Obj):
             itv = self.iterate_obj(itv, st)
+        if isinstance(itv, _ArgWhere) and isinstance(st.target, ast.Name) and not st.orelse:
+            # one row per selected position: the loop variable is an index *array* of one element
+            self.store(st.target, _Idx1(Pinned(itv.mask.dims[0], itv.mask.poly)), env, mod)
+            sig = self.block(st.body, env, mod)
+            return sig if sig and sig[0] in ('return', 'raise') else None
         if isinstance(itv, _WhereIdx) and isinstance(itv.mask, Arr) and itv.mask.ndim == 1 and itv.mask.mask is None and itv.mask.dims[0] in self.axis_len \
                 and self.axis_len[itv.mask.dims[0]] <= 16 and isinstance(st.target, ast.Name) and not st.orelse:
             # the positions where a mask over a few known positions holds: position k is visited exactly when the mask holds there
@@ -995,6 +1000,10 @@ class Interp:
                 return None
             self.store(st.target, gen, env, mod)
             sig = self.block(st.body, env, mod)
+            if not (sig and sig[0] in ('return', 'raise')) and isinstance(itv, GenList) and isinstance(st.target, ast.Name) and itv.label is not None:
+                # after the loop its variable still names the LAST element, not the generic one: code further down that reads it (a stale name in a later
+                # loop or comprehension) gets the last element for every position
+                env[st.target.id] = _last_element(env.get(st.target.id), itv.label)
             return sig if sig and sig[0] in ('return', 'raise') else None
         self.store(st.target, Unk('loop variable of an unmodelled iterable %s' % up(it)[:60], st), env, mod)
         if any(isinstance(n_, ast.Call) for b_ in st.body for n_ in ast.walk(b_)):
@@ -1232,6 +1241,11 @@ class Interp:
         while isinstance(node, ast.Subscript):
             chain_nodes.append(node)
             node = node.value
+        for inner_ in chain_nodes[1:]:
+            for ix_ in (inner_.slice.elts if isinstance(inner_.slice, ast.Tuple) else [inner_.slice]):
+                if isinstance(ix_, ast.Name) and isinstance(env.get(ix_.id), _Idx1):
+                    # x[..., index_array][...] = value: indexing with an array copies - the store goes into a temporary and x keeps its values
+                    return
         if isinstance(node, ast.Name) and isinstance(env.get(node.id), Arr) and env[node.id].view_src is not None and not getattr(t, '_through_view', False):
             src, ids = env[node.id].view_src
             if all(id(env.get(k_)) == v_ for k_, v_ in ids.items()):
@@ -1656,6 +1670,15 @@ class Interp:
                     if t:
                         return v
                 return vals[-1]
+            if len(vals) == 2 and tvs[0] is None and isinstance(vals[0], Arr) and vals[0].ndim == 0 and vals[0].mask is None and not _is_boolean(vals[0].poly) \
+                    and (isinstance(vals[1], Arr) and vals[1].ndim == 0 and vals[1].mask is None or _is_pynum(vals[1]) or isinstance(vals[1], Marker)):
+                # `x or default` / `x and other` on a number decided by the data: Python tests x for truth - a value of exactly 0 counts as missing
+                a_, b_ = vals[0], self._as_arr(vals[1])
+                if isinstance(b_, Arr):
+                    zero_ = alg.eq(a_.poly, 0)
+                    if isinstance(e.op, ast.Or):
+                        return Arr((), a_.poly + zero_ * b_.poly, None, a_.unit if a_.unit == b_.unit else None)          # (x where x is not 0; where it is, [x == 0] * x is 0)
+                    return Arr((), alg.b_not(zero_) * b_.poly, None, a_.unit if a_.unit == b_.unit else None)
             if isinstance(e.op, ast.And) and any(t is False for t in tvs):
                 return False              # one operand is false whatever the undecided ones are
             if isinstance(e.op, ast.Or) and any(t is True for t in tvs):
@@ -1741,6 +1764,11 @@ class Interp:
                 lab = itv.label if isinstance(itv, (GenList, _Range, _Enumerate, _Zip)) else (itv.dims[0] if isinstance(itv, Arr) else None)
                 return GenList(lab, self.expr(e.elt, sub, mod))
             return Unk('list comprehension over %s' % up(g.iter)[:50], e)
+        if isinstance(e, ast.Set):
+            vs_ = [self.expr(x_, env, mod) for x_ in e.elts]
+            if all(isinstance(x_, (int, float, str)) and not isinstance(x_, bool) for x_ in vs_):
+                return set(vs_)
+            return Unk('set display', e)
         if isinstance(e, ast.JoinedStr):
             # an f-string: its literal pieces, with the formatted values kept in order (as '%s' fields of a Fmt when any of them is symbolic)
             fmt_, vals_ = '', []
@@ -2169,8 +2197,15 @@ class Interp:
 
     def compare(self, e, env, mod):
         if len(e.ops) != 1:
-            return Unk('chained comparison', e)
+            # a op1 b op2 c  is  (a op1 b) and (b op2 c): Python chains comparisons, whatever the spacing suggests
+            parts_ = []
+            operands_ = [e.left] + list(e.comparators)
+            for k_, op_ in enumerate(e.ops):
+                parts_.append(ast.copy_location(ast.Compare(left=operands_[k_], ops=[op_], comparators=[operands_[k_ + 1]]), e))
+            return self.expr(ast.copy_location(ast.BoolOp(op=ast.And(), values=parts_), e), env, mod)
         a, b = self.expr(e.left, env, mod), self.expr(e.comparators[0], env, mod)
+        if isinstance(a, str) != isinstance(b, str) and type(e.ops[0]) in (ast.Eq, ast.NotEq) and all(isinstance(x_, (str, Arr, bool, int, float)) for x_ in (a, b)):
+            return type(e.ops[0]) is ast.NotEq          # a string is never equal to a number or a truth value
         opn = type(e.ops[0])
         if opn in (ast.Is, ast.IsNot):
             if isinstance(a, Unk) or isinstance(b, Unk):
@@ -2618,6 +2653,12 @@ class Interp:
             if ax >= v.ndim:
                 return Unk('too many indices in %s' % up(e), e)
             lab = v.dims[ax]
+            if isinstance(w, _Idx1):
+                if lab != w.pinned.label:
+                    raise LabelClash('index over axis %r used on axis %r in %s' % (w.pinned.label, lab, up(e)))
+                dims.append(None)          # the selected position, on an axis of one position (advanced indexing: a copy)
+                ax += 1
+                continue
             if isinstance(w, Pinned):
                 if isinstance(w.label, str) and w.label.startswith('sel:'):
                     # the k-th element of a boolean selection: only meaningful in the selection it counts
@@ -2925,6 +2966,11 @@ class Interp:
                     import math as _math
                     return float(getattr(_math, last)(x.poly.const_value()))           # of a plain number: a plain number
                 return x.with_(poly=alg.mk_fn(last, P(x.poly)), dt='f' if last == 'exp' else x.dt)
+            if last in ('isin', 'in1d') and len(args) == 2 and isinstance(args[1], (set, frozenset)):
+                # numpy makes ONE object of a set (np.asarray(set) is a 0-d object array): no element of the array equals it - every entry is False
+                a = self._as_arr(args[0])
+                if isinstance(a, Arr) and a.mask is None:
+                    return Arr(a.dims, Poly(), unit=num(1))
             if last in ('isin', 'in1d') and len(args) == 2 and isinstance(args[1], (list, tuple)) and args[1] and all(_is_pynum(x_) for x_ in args[1]):
                 a = self._as_arr(args[0])
                 if isinstance(a, Arr):
@@ -3041,6 +3087,41 @@ class Interp:
                 if isinstance(x, Arr) and x.ndim == 1:
                     return Arr(x.dims, alg.array_fn('argsort', x.dims[0], x.poly), unit=num(1))
                 return Unk('argsort of %r' % (x,), e)
+            if last == 'choose' and len(args) == 2 and not kw:
+                # np.choose(index, choices): choices[index[i]][i] - with the choices taken as a sequence of arrays, of which numpy accepts no more than 32 (64
+                # from numpy 2): a choices axis whose length the data decide (grid distances, models) raises ValueError as soon as it is longer
+                ix_, ch_ = self._as_arr(args[0]), self._as_arr(args[1])
+                if isinstance(ix_, Arr) and isinstance(ch_, Arr) and ch_.ndim >= 1 and ch_.dims[0] is not None and ix_.mask is None and ch_.mask is None:
+                    lab_ = ch_.dims[0]
+                    if self.axis_len.get(lab_, 10 ** 9) > 32:
+                        self.findings.append(Finding('library-limit', 'np.choose takes at most 32 choices (64 from numpy 2): the choices here run over the axis %r, whose length the data decide - a longer one raises ValueError' % lab_, e, mod.path))
+                    if tuple(ix_.dims) == tuple(ch_.dims[1:1 + ix_.ndim]) or ix_.ndim == 0:
+                        return Arr(tuple(ch_.dims[1:]), alg.mk_fn('at', B(lab_, ch_.poly), P(ix_.poly)), None, ch_.unit, dt=ch_.dt)
+            if last == 'norm' and 'linalg' in name and args:
+                # np.linalg.norm(x, ord=None, axis=None): the 2-norm over all elements, or along `axis`; any other `ord` is another norm (for a matrix, ord=1
+                # is the largest column sum: a single number)
+                x = self._as_arr(args[0])
+                ord_ = kw.get('ord', args[1] if len(args) > 1 else None)
+                ax_ = kw.get('axis', args[2] if len(args) > 2 else None)
+                if isinstance(x, Arr) and x.mask is None:
+                    sq_ = x.with_(poly=x.poly * x.poly, unit=None if x.unit is None else x.unit * x.unit)
+                    if ord_ in (None, 2) and (ord_ is None or x.ndim == 1 or ax_ is not None):
+                        tot_ = self._reduce(sq_, ax_, 'sum', e)
+                        if isinstance(tot_, Arr):
+                            return tot_.with_(poly=tot_.poly.pow(Fraction(1, 2)), unit=x.unit, dt='f')
+                    elif isinstance(ord_, (int, float)) and not isinstance(ord_, bool):
+                        out_dims_ = () if ax_ is None else tuple(d_ for k_, d_ in enumerate(x.dims) if k_ != (ax_ + x.ndim if isinstance(ax_, int) and ax_ < 0 else ax_))
+                        args_ = [B(d_, x.poly) if False else None for d_ in ()]
+                        p_ = x.poly
+                        for d_ in x.dims:
+                            if d_ is not None and d_ not in out_dims_:
+                                p_ = alg.mk_fn('norm_ord%s' % str(ord_).replace('.', '_').replace('-', 'm'), B(d_, p_))
+                        return Arr(out_dims_, p_, None, x.unit, dt='f')
+            if last == 'argwhere' and len(args) == 1:
+                m_ = self._as_arr(args[0])
+                if isinstance(m_, Arr) and m_.ndim == 1 and m_.mask is None and _is_boolean(m_.poly):
+                    return _ArgWhere(m_)
+                return Unk('np.argwhere of %r' % (m_,), e)
             if last == 'flatnonzero' and len(args) == 1:
                 m_ = self._as_arr(args[0])
                 if isinstance(m_, Arr) and m_.ndim == 1 and _is_boolean(m_.poly):
@@ -3212,6 +3293,11 @@ class Interp:
                 if isinstance(dst_, Arr) and isinstance(wm_, Arr) and _is_boolean(wm_.poly) and tuple(wm_.dims) == tuple(dst_.dims):
                     tgt_ = ast.Subscript(value=e.args[0], slice=e.args[1], ctx=ast.Store())
                     ast.copy_location(tgt_, e); ast.fix_missing_locations(tgt_)
+                    if isinstance(src_, Arr) and src_.ndim >= 1 and src_.mask is not None:
+                        # np.putmask(a, mask, values) takes values[n] for position n of a (a shorter vector is repeated): a vector with one value per
+                        # *selected* element lands on other positions unless the selected elements are the first ones
+                        raise LabelClash('np.putmask takes values[n] for position n of the array: a vector with one value per selected element (%s) is read at the '
+                                         'positions of the whole array in %s' % (alg.show(src_.mask, 50), up(e)[:70]))
                     if isinstance(src_, Arr) and src_.ndim >= 1 and src_.mask is None:
                         src_ = src_.with_(mask=wm_.poly)
                     self.store_sub(tgt_, src_, self.frames[-1], mod)
@@ -3277,6 +3363,10 @@ class Interp:
                     x = x.as_value()
                 if isinstance(x, Fraction) and last in ('int32', 'int64'):
                     return int(x)
+                if isinstance(x, Arr) and last in ('array', 'asarray', 'ascontiguousarray') and _narrow_float(kw.get('dtype', args[1] if len(args) > 1 else None)) and x.mask is None and x.dt != 'i':
+                    return x.with_(poly=alg.mk_fn('narrow', P(x.poly)), dt='f')          # (see astype)
+                if isinstance(x, Arr) and last == 'float32' and x.mask is None:
+                    return x.with_(poly=alg.mk_fn('narrow', P(x.poly)), dt='f')
                 if isinstance(x, (Arr, int, float)):
                     r_ = self._as_arr(x) if last not in ('int32', 'int64') else self._int(x, e)
                     if isinstance(r_, Arr) and last in ('array', 'asarray', 'ascontiguousarray') and r_.unit is not None and not (r_.unit == num(1)) and not kw.get('subok'):
@@ -3853,6 +3943,9 @@ class Interp:
                 if _dtype_kind(t_, None) == 'i' and recv.poly.is_const() and recv.poly.const_value().denominator != 1:
                     import math as _math
                     return recv.with_(poly=num(_math.trunc(recv.poly.const_value())), dt='i')         # a fractional constant cast to an integer type is cut
+                if _narrow_float(t_) and recv.mask is None and recv.dt != 'i':
+                    # values held in double precision cast to single (or half): every value moves to the nearest one that type can hold
+                    return recv.with_(poly=alg.mk_fn('narrow', P(recv.poly)), dt='f')
                 m_ = re.match(r'^[<>=|]?([USa])(\d+)$', tn) if isinstance(tn, str) else None
                 if m_ and recv.mask is None:
                     # a fixed-width string type: longer strings are cut to that many characters, silently
@@ -4078,6 +4171,18 @@ def _linear_fn(name, q, lab, xp, fp, extra):
 class _Range:
     def __init__(self, label):
         self.label = label
+
+
+class _ArgWhere:
+    """np.argwhere(mask) of a 1-d mask: one row per selected position, each row an array of one index"""
+    def __init__(self, mask):
+        self.mask = mask
+
+
+class _Idx1:
+    """an index array holding one position (a row of np.argwhere): indexing with it is advanced indexing - the result is a copy with an axis of one position"""
+    def __init__(self, pinned):
+        self.pinned = pinned
 
 
 class _WhereIdx:
@@ -4350,6 +4455,12 @@ def _walk_own(fnode):
         for c_ in ast.iter_child_nodes(n_):
             if not isinstance(c_, (ast.FunctionDef, ast.AsyncFunctionDef, ast.Lambda, ast.ClassDef)):
                 stack.append(c_)
+
+
+def _narrow_float(v):
+    """a dtype argument that names single or half precision"""
+    name = v.name if isinstance(v, Marker) else (v if isinstance(v, str) else getattr(v, '__name__', None))
+    return isinstance(name, str) and name.split('.')[-1].lstrip('<>=|') in ('float32', 'single', 'f', 'f4', 'float16', 'half', 'e', 'f2')
 
 
 def _dtype_kind(v, default):
@@ -4723,6 +4834,24 @@ def ext_(s_):
 
 def _is_text(v):
     return isinstance(v, (str, Fmt)) or isinstance(v, _SelectVal) and _is_text(v.a) and _is_text(v.b)
+
+
+def _last_element(v, label):
+    """the value a loop variable keeps after a loop over the axis ``label`` has ended: the generic element taken at the last position"""
+    if isinstance(v, Arr):
+        if label in alg.poly_labels(v.poly) or (v.mask is not None and label in alg.poly_labels(v.mask)):
+            return v.with_(poly=alg.index_at(v.poly, label, Poly.const(-1)), mask=None if v.mask is None else alg.index_at(v.mask, label, Poly.const(-1)))
+        return v
+    if isinstance(v, Obj):
+        o = Obj(v.cls, {}, v.name)
+        for k_, x_ in v.attrs.items():
+            o.attrs[k_] = _last_element(x_, label)
+        return o
+    if isinstance(v, dict):
+        return {k_: _last_element(x_, label) for k_, x_ in v.items()}
+    if isinstance(v, (list, tuple)):
+        return type(v)(_last_element(x_, label) for x_ in v)
+    return v
 
 
 def _pure_fn(fi):
